@@ -79,50 +79,59 @@ func (c *ctx) ocUnmarshal(dst *xsens.OutputConfiguration, payload []byte) {
 	c.emit("ocunm", tup(settingsTerm(backing), nlist(payload), r))
 }
 
+// mkConf: a destination of length l and capacity cp whose whole backing array holds junk settings
+func (c *ctx) mkConf(l, cp int) xsens.OutputConfiguration {
+	if cp < l {
+		cp = l
+	}
+	o := make(xsens.OutputConfiguration, l, cp)
+	full := o[:cp]
+	for i := range full {
+		full[i] = c.junkSetting()
+	}
+	return o
+}
+
+// ocUnmarshalSequences: decodes into destinations in every prior state, then further decodes into the same destination
+func (c *ctx) ocUnmarshalSequences(count int) {
+	mk := c.mkConf
+	for i := 0; i < count; i++ {
+		payload := c.configPayload()
+		n := len(payload) / 4
+		var dst xsens.OutputConfiguration
+		switch c.rng.Intn(7) {
+		case 0:
+			dst = nil
+		case 1:
+			dst = mk(c.rng.Intn(n+1), n) // exactly enough capacity
+		case 2:
+			dst = mk(c.rng.Intn(n/2+1), n/2) // too small
+		case 3:
+			dst = mk(n+c.rng.Intn(5), n+5+c.rng.Intn(5)) // longer, spare capacity
+		case 4:
+			dst = mk(0, n+1) // empty but roomy
+		case 5:
+			l := c.rng.Intn(4)
+			dst = mk(l, l+1+c.rng.Intn(3)) // len < cap < needed (mostly)
+		case 6:
+			dst = mk(c.rng.Intn(10), 10)
+		}
+		c.ocUnmarshal(&dst, payload)
+		// a sequence of further decodes into the same destination (long, short, longer)
+		for k := 0; k < 3; k++ {
+			c.ocUnmarshal(&dst, c.configPayload())
+		}
+		// aliasing: a second header over the same backing array
+		alias := dst[:0]
+		c.ocUnmarshal(&alias, c.configPayload())
+	}
+}
+
 func init() {
 	props["C13"] = func(c *ctx) {
 		// prior destination states: nil, shorter, longer, spare capacity, junk contents, aliasing an earlier result
-		mk := func(l, cp int) xsens.OutputConfiguration {
-			if cp < l {
-				cp = l
-			}
-			o := make(xsens.OutputConfiguration, l, cp)
-			full := o[:cp]
-			for i := range full {
-				full[i] = c.junkSetting()
-			}
-			return o
-		}
-		for i := 0; i < c.pick(300, 3000); i++ {
-			payload := c.configPayload()
-			n := len(payload) / 4
-			var dst xsens.OutputConfiguration
-			switch c.rng.Intn(7) {
-			case 0:
-				dst = nil
-			case 1:
-				dst = mk(c.rng.Intn(n+1), n) // exactly enough capacity
-			case 2:
-				dst = mk(c.rng.Intn(n/2+1), n/2) // too small
-			case 3:
-				dst = mk(n+c.rng.Intn(5), n+5+c.rng.Intn(5)) // longer, spare capacity
-			case 4:
-				dst = mk(0, n+1) // empty but roomy
-			case 5:
-				l := c.rng.Intn(4)
-				dst = mk(l, l+1+c.rng.Intn(3)) // len < cap < needed (mostly)
-			case 6:
-				dst = mk(c.rng.Intn(10), 10)
-			}
-			c.ocUnmarshal(&dst, payload)
-			// a sequence of further decodes into the same destination (long, short, longer)
-			for k := 0; k < 3; k++ {
-				c.ocUnmarshal(&dst, c.configPayload())
-			}
-			// aliasing: a second header over the same backing array
-			alias := dst[:0]
-			c.ocUnmarshal(&alias, c.configPayload())
-		}
+		mk := c.mkConf
+		c.ocUnmarshalSequences(c.pick(300, 3000))
 		// marshal: in-range and arbitrary configurations
 		for i := 0; i < c.pick(200, 2000); i++ {
 			n := c.rng.Intn(40)
